@@ -704,8 +704,11 @@ struct JaegerEnd {
 struct JaegerEnds {
     v4: JaegerEnd,
     v6: Option<JaegerEnd>,
+    /// the IPv4 agent addressed in IPv4-mapped IPv6 form, [::ffff:127.0.0.1]:port
+    mapped: Option<JaegerEnd>,
     n: usize,
     n6: usize,
+    nm: usize,
 }
 
 impl JaegerEnds {
@@ -718,13 +721,28 @@ impl JaegerEnds {
         if v6.is_none() {
             st.stat("ipv6_loopback_unavailable", 1);
         }
-        JaegerEnds { v4: mk(UdpSink::new()), v6, n: 0, n6: 0 }
+        let mapped = if v6.is_some() {
+            UdpSink::new_on("127.0.0.1:0").and_then(|sink| {
+                let addr: SocketAddr = format!("[::ffff:127.0.0.1]:{}", sink.addr.port()).parse().ok()?;
+                let rep = fastrace_jaeger::JaegerReporter::new(addr, SERVICE).ok()?;
+                Some(JaegerEnd { sink, rep })
+            })
+        } else {
+            None
+        };
+        JaegerEnds { v4: mk(UdpSink::new()), v6, mapped, n: 0, n6: 0, nm: 0 }
     }
     fn pick(&mut self) -> &mut JaegerEnd {
         self.n += 1;
         if self.n % 3 == 0 {
             if let Some(e) = self.v6.as_mut() {
                 self.n6 += 1;
+                return e;
+            }
+        }
+        if self.n % 7 == 1 {
+            if let Some(e) = self.mapped.as_mut() {
+                self.nm += 1;
                 return e;
             }
         }
@@ -954,6 +972,7 @@ fn run_jaeger(st: &mut St, r: &mut Rng, n: usize, deadline: Instant) {
         st.distinct += 1;
     }
     st.stat("batches_to_an_ipv6_agent", ends.n6 as u64);
+    st.stat("batches_to_an_ipv4_mapped_agent_address", ends.nm as u64);
 }
 
 fn run_split(st: &mut St, r: &mut Rng, n: usize, deadline: Instant) {
@@ -1043,6 +1062,7 @@ fn run_split(st: &mut St, r: &mut Rng, n: usize, deadline: Instant) {
         st.distinct += 1;
     }
     st.stat("batches_to_an_ipv6_agent", ends.n6 as u64);
+    st.stat("batches_to_an_ipv4_mapped_agent_address", ends.nm as u64);
 }
 
 // ---- datadog ----
@@ -1051,6 +1071,10 @@ struct HttpSink {
     addr: SocketAddr,
     got: Arc<Mutex<Vec<(String, Vec<u8>)>>>,
 }
+
+/// status of the next response of any HttpSink (0 = 200); an agent may well answer 429 or 5xx
+/// after it has read the request
+static NEXT_STATUS: std::sync::atomic::AtomicU32 = std::sync::atomic::AtomicU32::new(0);
 
 impl HttpSink {
     fn new() -> HttpSink {
@@ -1104,7 +1128,9 @@ impl HttpSink {
                         let body = buf[hdr_end..hdr_end + len].to_vec();
                         buf.drain(..hdr_end + len);
                         g.lock().unwrap().push((head, body));
-                        if s.write_all(b"HTTP/1.1 200 OK\r\nContent-Length: 2\r\nContent-Type: application/json\r\n\r\n{}").is_err() {
+                        let st = NEXT_STATUS.swap(0, Ordering::SeqCst);
+                        let head = if st == 0 { "HTTP/1.1 200 OK".to_string() } else { format!("HTTP/1.1 {} Status", st) };
+                        if s.write_all(format!("{}\r\nContent-Length: 2\r\nContent-Type: application/json\r\n\r\n{{}}", head).as_bytes()).is_err() {
                             return;
                         }
                     }
@@ -1157,6 +1183,13 @@ fn run_datadog(st: &mut St, r: &mut Rng, n: usize, deadline: Instant) {
         };
         if use6 {
             st.stat("batches_to_an_ipv6_agent", 1);
+        }
+        // the agent answers this batch with an error status now and then: the records have been
+        // transmitted all the same, once
+        if r.chance(1, 8) {
+            let codes = [429u32, 500, 502, 503, 504, 400, 404, 413];
+            NEXT_STATUS.store(codes[r.below(codes.len())], Ordering::SeqCst);
+            st.stat("batches_answered_with_an_error_status", 1);
         }
         // the first batches of a run have the sizes at which container headers change their
         // encoding (msgpack fixarray / array16 / array32, thrift short / long list headers)
